@@ -19,6 +19,7 @@ PROGRAMS = {
     "export-fail": "lab: nop\n@defl foo, @sizeof lab\n",          # unsolvable, never referenced: only an exporter notices
     "missing-include": "@include \"absent.inc\"\n",
     "assert-link-fail": "nop\n@db 1, 2\n@assert later == 2\n@defl later, 3\n",      # everything resolves, a deferred assertion is false
+    "empty": "@segment \"ADDR\"\n@org $c000\n@meta \"ID\" \"RAM\"\nvar: @db\n@endmeta\nvar2: @dw\n",      # definitions only: a zero-length image
     "big": "@meta \"ID\" \"RAM\"\nvar:\n@endmeta\n@db 10\n@ds 3000, $ea\n@db 10, 1\n@ds 2000, $ea\n",      # several KiB, line-feed bytes early: partial writes show
 }
 ARCH_NOP = {"6502": "ea", "z80": "00", "sm83": "00"}
@@ -56,6 +57,8 @@ def run(tier, seed):
             continue
         if dbg in ("arch-nodir", "arch-json-nodir") and arch == "z80":
             continue
+        if prog == "empty" and omode == "devfull":
+            continue        # (nothing is written, so a device that cannot be written is not noticed)
         to_file = omode != "stdout"
         if prog == "ok" and sp == "none":
             continue   # lib.inc is found through the search path or the root's own directory
@@ -142,8 +145,8 @@ def run(tier, seed):
         if got != [m_exit, m_out, m_of, m_msg]:
             chk.disagreements.append({"argv": argv, "program": prog, "impl": got + [sorted(written)], "model": m[:5]})
         # ---- the property itself, on the real binary
-        should_ok = sp != "bad" and omode not in ("nodir", "devfull") and (prog in ("ok", "big") or (prog == "export-fail" and dbg == "none")) and "nodir" not in dbg
-        image_ok = sp != "bad" and omode not in ("nodir", "devfull") and prog in ("ok", "big", "export-fail")     # assembling and linking succeed, the image can be written
+        should_ok = sp != "bad" and omode not in ("nodir", "devfull") and (prog in ("ok", "big", "empty") or (prog == "export-fail" and dbg == "none")) and "nodir" not in dbg
+        image_ok = sp != "bad" and omode not in ("nodir", "devfull") and prog in ("ok", "big", "empty", "export-fail")     # assembling and linking succeed, the image can be written
         bad = None
         if rc not in (0, 1):
             bad = f"exit status {rc} (crash or usage error); stderr: {se.decode('utf-8', 'replace')[-160:]}"
@@ -162,10 +165,14 @@ def run(tier, seed):
                 bad = f"assembling/linking failed but export files were created: {sorted(written)}"
         if image_ok and not bad:
             want = bytes.fromhex(ARCH_NOP[arch]) + (bytes([1, 2, 9, 0, 0]) if prog == "ok" else b"")
+            if prog == "empty":
+                want = b""
             if prog == "big":
                 want = bytes([10]) + b"\xea" * 3000 + bytes([10, 1]) + b"\xea" * 2000
             data = of if to_file else so
-            if data != want:
+            if to_file and of is None:
+                bad = "exit status 0 but the -o file does not exist"
+            elif data != want:
                 bad = f"output {data.hex() if data is not None else None} differs from {want.hex()} ({'-o file' if to_file else 'stdout'})"
             if to_file and so:
                 bad = "bytes on standard output although -o was given"
